@@ -21,7 +21,9 @@ CONSTANTS NT,       \* number of requested time points (uniform grid starting at
           DivRows   \* rows reported by a volume simulator whose Volume object divides inside the grid
 
 Sources  == {"model", "iface_plain", "iface_safe", "neither", "both"}
-Volumes  == {"off", "flag", "number", "object", "dividing"}
+\* "baseobject": an object of the base class Volume (constant volume, no growth law); "object" / "dividing": a
+\* StochasticTimeThresholdVolume that does not / does divide inside the grid
+Volumes  == {"off", "flag", "number", "object", "dividing", "baseobject"}
 Delays   == {"none", "false", "true"}
 Models   == {"plain", "delays", "rules", "both", "decay1", "inert"}   \* inert: the plain network with no molecules (total propensity 0)
 
@@ -78,6 +80,7 @@ MakeVolume == /\ pc = "MakeVolume"
                           [] opt.volume = "number" -> "const"
                           [] opt.volume = "object" -> "object"
                           [] opt.volume = "dividing" -> "dividing"
+                          [] opt.volume = "baseobject" -> "object"
               /\ pc' = "Choose"
               /\ UNCHANGED <<opt, iface, sim, out>>
 
